@@ -523,7 +523,8 @@ func (r *vfC17MRig) orphanProof2() (string, string) {
 				// a notification nobody has taken yet. Not this broker's: its watcher (checked below) waits
 				// with nothing to receive, so this sender sits on the channel of a store whose broker is
 				// gone (the in-memory store leaks such senders)
-			case strings.Contains(l, "/mqttproxy.(*Broker).deleteSession("), strings.Contains(l, "/mqttproxy.(*mockStorage).delete"), strings.Contains(l, "/mqttproxy.(*Broker).reconnectWatcher("):
+			case strings.Contains(l, "/mqttproxy.(*Broker).deleteSession"), strings.Contains(l, "/mqttproxy.(*mockStorage).delete"), strings.Contains(l, "/mqttproxy.(*Broker).reconnectWatcher"), strings.Contains(l, "/mqttproxy.(*Broker).watchDelete."):
+				// (watchDelete.<wrapper>: a deleteSession goroutine that was started and has not run yet)
 				return "", "delete notification on its way: " + l
 			case strings.Contains(l, "/mqttproxy.(*Broker).watchDelete(") && !waiting:
 				return "", "watcher busy: " + lines[0]
